@@ -22,16 +22,15 @@ def batch(batch_size):
     '''
     def _batch(acc, i):
         if acc[1] is True:
-            return ([i], False)
+            b = [i]
         else:
             b = acc[0]
             b.append(i)
-            if len(b) == batch_size:            
-                return (b, True)
-        
-            return (b, False)
-    
-    def _terminate(acc): return (acc[0], True)
+        return (b, len(b) == batch_size)
+
+    def _terminate(acc):
+        # only items not emitted yet form the last (partial) batch
+        return (acc[0], acc[1] is False and len(acc[0]) > 0)
 
     return rx.pipe(
         rs.ops.scan(_batch, seed=([], False), terminator=_terminate),
